@@ -399,7 +399,7 @@ func inventoryInstalledWithManager(p *load.Program) bool {
 	ok := len(gs) > 0
 	for _, in := range handlerInstalls(p) {
 		if in.owner == acc && in.handler != nil && fname(in.handler) == "handleInventory" {
-			if d, _ := kit.DominatedByEdges(acc, in.in, edgesOf(gs, true), nil, p.Pos); !d {
+			if d, _ := kit.DominatedByEdges(acc, in.entry, edgesOf(gs, true), nil, p.Pos); !d {
 				ok = false
 			}
 		} else if in.handler != nil && fname(in.handler) == "handleInventory" {
@@ -675,6 +675,39 @@ func checkFrameHelpers(p *load.Program, r *kit.Report, rule string) {
 				}
 			}
 		})
+		if lenRead == nil {
+			// read into a local and then stored: `binary.Read(r, endian, &length); header.Length = length`
+			kit.AllInstrs(f, func(in ssa.Instruction) {
+				st, ok := in.(*ssa.Store)
+				if !ok {
+					return
+				}
+				fl, base := kit.FieldOfAddr(st.Addr)
+				if fl == nil || fl.Name() != "Length" || kit.Strip(base) != ssa.Value(hp) {
+					return
+				}
+				fromRead := kit.DependsOn(st.Val, func(v ssa.Value) bool {
+					ld, ok := v.(*ssa.UnOp)
+					if !ok || ld.Op != token.MUL {
+						return false
+					}
+					al, ok := ld.X.(*ssa.Alloc)
+					if !ok || al.Referrers() == nil {
+						return false
+					}
+					found := false
+					kit.AllInstrs(f, func(in2 ssa.Instruction) {
+						if c, ok := in2.(*ssa.Call); ok && kit.CallID(c) == "encoding/binary.Read" && len(c.Call.Args) == 3 && kit.Strip(c.Call.Args[2]) == ssa.Value(al) {
+							found = true
+						}
+					})
+					return found
+				})
+				if fromRead {
+					lenRead = st
+				}
+			})
+		}
 		lay := kit.LayoutString(kit.WireLayout(f, nil, 0))
 		switch {
 		case lenRead == nil:
